@@ -1,7 +1,36 @@
-(** C12: roots modulo p (first version: executable-model milestone). *)
+(** C12: root finding modulo p.
+
+    [pof opsZ f x] is Horner evaluation of f at x over Z (Model/Poly.v). *)
+From Coq Require Import ZArith List Lia Znumtheory.
 From RNT.Model Require Import Base Poly PolyModP LinearRoots.
-From RNT.Refine Require Import PolyModStart.
+From RNT.Refine Require Import RootsProofs RootsComplete PolyModStart.
+Import ListNotations.
 Open Scope Z_scope.
+
+(** [P] [roots_sound]: for every prime p, every build profile, every f (also f = 0 mod p) and
+    every stream of random bytes: if [find_linear_factors] returns, every returned value lies
+    in [0, p) and is a root of f modulo p. *)
+Theorem roots_sound : forall md f p r roots r',
+  prime p -> find_linear_factors md f p r = Done (roots, r') ->
+  Forall (fun x => 0 <= x < p /\ (pof opsZ f x) mod p = 0) roots.
+Proof. exact roots_sound. Qed.
+
+(** Non-vacuity: x (x - 1)^2 (x^2 + 1) = x^5 - 2x^4 + 2x^3 - 2x^2 + x modulo 3 with three scripted
+    draws (12 bytes); the run returns the roots 0, 1, 1. *)
+Example roots_sound_nonvacuous :
+  prime 3 /\
+  exists r', find_linear_factors Checked [0; 1; -2; 2; -2; 1] 3 (rng_of [1; 0; 0; 0; 0; 0; 0; 0; 1; 0; 0; 0]) = Done ([0; 1; 1], r').
+Proof. split; [exact prime_3|]. eexists. vm_compute. reflexivity. Qed.
+
+(** [P] [roots_complete_set]: conversely every root of f modulo p in [0, p) is returned (for every
+    prime p, profile and draw stream on which the run returns; f = 0 mod p never returns). With
+    [roots_sound]: the set of returned values is exactly the set of roots of f in F_p; in
+    particular the list is empty iff f has no root. The "no progress => discard" exit is justified
+    by Euler's criterion. Multiplicities are not covered. *)
+Theorem roots_complete_set : forall md f p r roots r',
+  prime p -> find_linear_factors md f p r = Done (roots, r') ->
+  forall b, 0 <= b < p -> (pof opsZ f b) mod p = 0 -> In b roots.
+Proof. exact roots_complete_set. Qed.
 
 (** [P] a non-zero constant has no root. *)
 Theorem roots_of_constant : forall md c p r,
